@@ -173,6 +173,26 @@ class Tally:
         ex.stats.solver_s += time.time() - t0
         ex.stats.queries += 1
         xcheck_record(ex, r)
+        if r == z3.unknown and not isinstance(f, bool) and z3.is_and(f) and f.num_args() > 1:
+            # a large conjunction timed out: decide its conjuncts one at a time (unsat for all <=> unsat for the conjunction)
+            ex.solver.pop()
+            r = z3.unsat
+            for g in f.children():
+                ex.solver.push()
+                ex.solver.add(ex.tr(z3.Not(g)))
+                t0 = time.time()
+                rg = ex.solver.check()
+                ex.stats.solver_s += time.time() - t0
+                ex.stats.queries += 1
+                d['queries'] += 1
+                if rg == z3.sat:
+                    r = z3.sat
+                    break          # the solver state (push level) now holds the refuting query: model taken below
+                ex.solver.pop()
+                if rg != z3.unsat:
+                    r = z3.unknown
+            if r != z3.sat:
+                ex.solver.push()   # keep push/pop balanced with the common exit below
         out = None
         if r == z3.unsat:
             d['unsat'] += 1
@@ -181,6 +201,7 @@ class Tally:
             d['sat'] += 1
             ex.stats.sat += 1
             out = ex.solver.model()
+            ex.cex_model = out      # counterexample candidates are built from the refuting model
             d['status'] = 'violated'
         else:
             d['unknown'] += 1
@@ -433,7 +454,9 @@ def reader_task(spec):
 
     def sample(res, expect_kind):
         ex, st = res.ex, res.ex.st
-        mdl = ex.model()
+        mdl = getattr(ex, 'cex_model', None)
+        if mdl is None:
+            mdl = ex.model()
         if mdl is None:
             return None
         arg = mval(mdl, st['n']) if kind == 'bytes' else None
@@ -477,7 +500,9 @@ def reader_task(spec):
             return
         # what the specification (reference codec over the model's logical input) demands natively
         ex, st = res.ex, res.ex.st
-        mdl = ex.model()
+        mdl = getattr(ex, 'cex_model', None)
+        if mdl is None:
+            mdl = ex.model()
         spec_op = spec_drain = None
         if mdl is not None:
             Tc = mval(mdl, st['T'])
@@ -601,6 +626,7 @@ def reader_task(spec):
                 candidate("cc:%s:%s-on-truncated-input" % (op, 'returns' if k == 'ret' else k), O('throws'),
                           "%s ends with %s on a truncated encoding" % (op, k), res, 'ret' if k == 'ret' else 'any')
         # sample for encoder validation
+        ex.cex_model = None
         if len(samples) < want_samples and (pathno[0] + spec.get('seed', 0)) % spec.get('stride', 1) == 0:
             s_ = sample(res, k)
             if s_ is not None:
@@ -705,7 +731,9 @@ def writer_task(spec):
 
     def sample(res):
         ex, st = res.ex, res.ex.st
-        mdl = ex.model()
+        mdl = getattr(ex, 'cex_model', None)
+        if mdl is None:
+            mdl = ex.model()
         if mdl is None:
             return None
         p = mval(mdl, st['p'])
@@ -738,7 +766,9 @@ def writer_task(spec):
             tally.inconclusive(obligation, "no model for counterexample %s" % key)
             return
         ex, st = res.ex, res.ex.st
-        mdl = ex.model()
+        mdl = getattr(ex, 'cex_model', None)
+        if mdl is None:
+            mdl = ex.model()
         spec_out = None
         if mdl is not None:
             pc_, nc = mval(mdl, st['p']), mval(mdl, st['nenc'])
@@ -797,6 +827,7 @@ def writer_task(spec):
         r = tally.prove(ex, O('bytes'), z3.And(*conj))
         if r is not None and r != 'unknown':
             candidate("cc:%s:bytes-mismatch" % op, O('bytes'), "bytes emitted by %s differ from the reference codec" % op, res, 'any')
+        ex.cex_model = None
         if len(samples) < want_samples and (pathno[0] + spec.get('seed', 0)) % spec.get('stride', 1) == 0:
             s_ = sample(res)
             if s_ is not None:
@@ -825,6 +856,9 @@ def run_task(spec):
         elif spec['kind'] in ('blocks', 'header'):
             from parts import cc_blocks
             r = cc_blocks.run_task(spec)
+        elif spec['kind'] in ('sread', 'swrite'):
+            from parts import cc_reuse
+            r = cc_reuse.run_task(spec)
         else:
             raise ValueError(spec['kind'])
         xs, xp = xcheck_run(r['tag'])
